@@ -165,3 +165,161 @@ Lemma bk_monitor_sound_l id keep olds0 sts obs :
   (forall c, In c (check_case (id, PBackup keep olds0 sts obs)) -> snd (fst c) <> 10%N /\ snd (fst c) <> 11%N) ->
   bk_steps_spec keep (None :: olds0) sts obs /\ bk_hist_spec keep [] sts obs.
 Proof. cbn [check_case]. apply bk_check_sound. Qed.
+
+(* ================================================================== *)
+(* Peerstore file: codes 12 and 13                                    *)
+(* ================================================================== *)
+Local Open Scope N_scope.
+
+Lemma tr_eqb2_refl t : tr_eqb2 t t = true.
+Proof. unfold tr_eqb2. now rewrite N.eqb_refl, Bool.eqb_reflx. Qed.
+Lemma tr_eqb2_eq a b : tr_eqb2 a b = true -> a = b.
+Proof. destruct a as [x u], b as [y v]. unfold tr_eqb2. cbn [fst snd]. rewrite andb_true_iff. intros [H1 H2].
+  apply N.eqb_eq in H1. apply Bool.eqb_prop in H2. now subst. Qed.
+Lemma trs_eqb_refl (l : list transport) : list_eqb tr_eqb2 l l = true.
+Proof. apply list_eqb_refl. intros; apply tr_eqb2_refl. Qed.
+Lemma otr_eqb_refl t : otr_eqb t t = true.
+Proof. destruct t; simpl; auto. apply tr_eqb2_refl. Qed.
+Lemma paddr_eqb_refl a : paddr_eqb a a = true.
+Proof. destruct a; simpl; [apply N.eqb_refl|]. now rewrite N.eqb_refl, otr_eqb_refl. Qed.
+Lemma opaddr_eqb_refl a : opaddr_eqb a a = true.
+Proof. destruct a; simpl; auto. apply paddr_eqb_refl. Qed.
+Lemma opaddrs_eqb_refl (l : list (option paddr)) : list_eqb opaddr_eqb l l = true.
+Proof. apply list_eqb_refl. intros; apply opaddr_eqb_refl. Qed.
+Lemma obs_pinfo_eqb_refl pi : obs_pinfo_eqb pi pi = true.
+Proof. unfold obs_pinfo_eqb. now rewrite N.eqb_refl, trs_eqb_refl. Qed.
+Lemma same_infos_refl l : same_infos (Some l) l = true.
+Proof. cbn [same_infos]. apply list_eqb_refl. intros; apply obs_pinfo_eqb_refl. Qed.
+
+(* insertion sort leaves a sorted list alone *)
+Lemma sort_by_sorted_id {A} (key : A -> nat) (l : list A) : StronglySorted (kle key) l -> sort_by key l = l.
+Proof. induction l as [|x r IH]; intros H; [reflexivity|]. inversion H as [|? ? Hs Hall]; subst.
+  cbn [sort_by fold_right]. fold (sort_by key r). rewrite (IH Hs). destruct r as [|y ys]; [reflexivity|].
+  cbn [ins_by]. inversion Hall as [|? ? Hxy _]; subst. unfold kle in Hxy. destruct (Nat.leb_spec (key x) (key y)); [reflexivity|lia]. Qed.
+Lemma sort_by_idem {A} (key : A -> nat) (l : list A) : sort_by key (sort_by key l) = sort_by key l.
+Proof. apply sort_by_sorted_id, sort_by_sorted. Qed.
+
+Lemma filtered_addrs_sorted ps p : sort_by tr_key (filtered_addrs ps p) = filtered_addrs ps p.
+Proof. unfold filtered_addrs. cbv zeta. match goal with |- context [match ?x with [] => _ | _ :: _ => _ end] => destruct x end; apply sort_by_idem. Qed.
+
+Lemma peer_infos_in self ps peers pi : In pi (peer_infos self ps peers) -> snd pi = filtered_addrs ps (fst pi).
+Proof. unfold peer_infos. intros H. apply (Permutation_in _ (sort_by_perm _ _)) in H. apply in_flat_map in H.
+  destruct H as [q [_ Hq]]. destruct (N.eqb q self); [destruct Hq|].
+  destruct (filtered_addrs ps q) as [|t ts] eqn:E; [destruct Hq|]. destruct Hq as [<-|[]]. cbn [fst snd]. now rewrite E. Qed.
+
+Lemma pinfo_eqb_refl_sorted pi : sort_by tr_key (snd pi) = snd pi -> pinfo_eqb pi pi = true.
+Proof. intros H. unfold pinfo_eqb. rewrite N.eqb_refl, H. cbn [andb]. destruct (existsb _ _); apply trs_eqb_refl. Qed.
+
+Lemma sorted_nat_of_sorted {A} (key : A -> nat) (l : list A) : StronglySorted (kle key) l -> sorted_nat (map key l) = true.
+Proof. induction l as [|x r IH]; intros H; [reflexivity|]. inversion H as [|? ? Hs Hall]; subst.
+  destruct r as [|y ys]; [reflexivity|]. cbn [map sorted_nat]. inversion Hall as [|? ? Hxy _]; subst. unfold kle in Hxy.
+  apply andb_true_iff. split; [now apply Nat.leb_le|]. exact (IH Hs). Qed.
+
+(* the comparison of the model's PeerInfos with itself succeeds (both branches of the tie rule) *)
+Lemma pinfos_eqb_refl self ps peers : pinfos_eqb ps (peer_infos self ps peers) (peer_infos self ps peers) = true.
+Proof. set (m := peer_infos self ps peers).
+  assert (Hr : forall x, In x m -> pinfo_eqb x x = true).
+  { intros x Hx. apply pinfo_eqb_refl_sorted. rewrite (peer_infos_in self ps peers x Hx). apply filtered_addrs_sorted. }
+  unfold pinfos_eqb. destruct (nodup_nat _); [now apply list_eqb_refl|].
+  rewrite Nat.eqb_refl. cbn [andb]. apply andb_true_iff. split.
+  - apply forallb_forall. intros x Hx. apply existsb_exists. exists x. split; auto.
+  - unfold m, peer_infos. apply (sorted_nat_of_sorted (fun pi : pinfo => prio_of ps (fst pi))). apply sort_by_sorted. Qed.
+
+(* ---- arbitrary files (code 12) ---- *)
+Definition ps_file_model_infos (self : N) (ls : list line) (query : list N) : option (list pinfo) :=
+  match import_file true self ls ps_empty with ICrash => None | IOk ps => Some (peer_infos self ps query) end.
+
+Lemma forallb_is_some_load ls : forallb is_some (load_lines ls) = true.
+Proof. apply forallb_forall. intros a Ha. pose proof (load_lines_no_nil ls a Ha). destruct a; [reflexivity|congruence]. Qed.
+
+(* completeness: every file, every host identity, every query *)
+Lemma ps_file_model_passes_monitor_l id self ls query :
+  check_case (id, PPsFile self ls query (load_lines ls) (ps_file_model_infos self ls query)) = [].
+Proof. cbn [check_case]. unfold ps_file_check, ps_file_model_infos. rewrite opaddrs_eqb_refl, forallb_is_some_load. cbn [andb].
+  destruct (import_file true self ls ps_empty) as [|ps] eqn:E; [exfalso; exact (import_file_no_crash self ls ps_empty E)|].
+  cbn [opinfos_eqb is_some]. now rewrite pinfos_eqb_refl. Qed.
+
+(* soundness: no code 12 means LoadPeerstore returned no nil element and the import did not crash *)
+Lemma ps_file_monitor_sound_l id self ls query obs_load obs_infos :
+  (forall c, In c (check_case (id, PPsFile self ls query obs_load obs_infos)) -> snd (fst c) <> 12) ->
+  (forall a, In a obs_load -> a <> None) /\ obs_infos <> None.
+Proof. cbn [check_case]. unfold ps_file_check. intros H.
+  destruct (forallb is_some obs_load && is_some obs_infos) eqn:E.
+  - apply andb_true_iff in E. destruct E as [E1 E2]. rewrite forallb_forall in E1. split.
+    + intros a Ha. specialize (E1 a Ha). destruct a; [discriminate|discriminate E1].
+    + destruct obs_infos; [discriminate|discriminate E2].
+  - exfalso. apply (H (id, 12, 0)); [|reflexivity]. apply in_or_app. right. now left. Qed.
+
+(* ---- save on one host, load on another (code 13) ---- *)
+Lemma fold_add_ok p trs : forall ps, ps_ok ps -> ps_ok (fold_left (fun a t => add_addr p t a) trs ps).
+Proof. induction trs as [|t r IH]; intros ps H; [exact H|]. cbn [fold_left]. apply IH. now apply add_addr_ok. Qed.
+Lemma ps_build_ok pre : ps_ok (ps_build pre).
+Proof. unfold ps_build. generalize ps_empty_ok. generalize ps_empty. induction pre as [|[[p trs] pr] r IH]; intros ps H; [exact H|].
+  cbn [fold_left]. apply IH. destruct pr; [apply set_prio_ok|]; now apply fold_add_ok. Qed.
+
+Lemma group_loaded_cons p t r : group_loaded (Some (PP2p p (Some t)) :: r) =
+  match group_loaded r with
+  | Some ((q, ts) :: g) => if N.eqb p q then Some ((q, t :: ts) :: g) else Some ((p, [t]) :: (q, ts) :: g)
+  | Some [] => Some [(p, [t])]
+  | None => None
+  end.
+Proof. reflexivity. Qed.
+Lemma group_loaded_one p : forall trs r, trs <> [] -> (match r with (q, _) :: _ => q <> p | [] => True end) ->
+  forall rest, group_loaded rest = Some r ->
+  group_loaded (map (fun t => Some (PP2p p (Some t))) trs ++ rest) = Some ((p, trs) :: r).
+Proof. induction trs as [|t ts IH]; intros r Hne Hr rest E; [congruence|].
+  cbn [map app]. rewrite group_loaded_cons. destruct ts as [|t' ts'].
+  - cbn [map app]. rewrite E. destruct r as [|[q ts] g]; [reflexivity|].
+    destruct (N.eqb_spec p q) as [->|_]; [congruence|reflexivity].
+  - rewrite (IH r ltac:(discriminate) Hr rest E). now rewrite N.eqb_refl. Qed.
+
+Lemma group_loaded_loaded infos : wf_infos infos -> group_loaded (loaded_of infos) = Some infos.
+Proof. intros [Hnd Hw]. induction infos as [|[p trs] r IH]; [reflexivity|].
+  cbn [loaded_of flat_map fst snd]. fold (loaded_of r). cbn [map] in Hnd. inversion Hnd as [|? ? Hp Hr]; subst.
+  apply group_loaded_one.
+  - destruct (Hw (p, trs) (or_introl eq_refl)) as [H _]. exact H.
+  - destruct r as [|[q ts] g]; [exact I|]. intros ->. apply Hp. now left.
+  - apply IH; auto. intros pi Hpi. apply Hw. now right. Qed.
+
+Definition ps_save_model_obs0 (self1 : N) (pre : list (N * list transport * option nat)) (query : list N) : list pinfo :=
+  peer_infos self1 (ps_build pre) query.
+
+(* completeness: every peerstore host 1 can have built, every duplicate-free query on host 1, host 2 not among the saved
+   peers (PeerInfos never lists the local peer and the harness uses two distinct identities), host 2 asked for exactly the
+   saved peers in any order *)
+Lemma ps_save_model_passes_monitor_l id self1 self2 pre query query2 :
+  let obs0 := ps_save_model_obs0 self1 pre query in
+  NoDup query -> ~ In self2 (map fst obs0) -> Permutation query2 (map fst obs0) ->
+  check_case (id, PPsSave self1 self2 pre query query2 obs0 (save_lines obs0) (load_lines (save_lines obs0))
+                          (reload self2 obs0 query2)) = [].
+Proof. intros obs0 Hnd Hs Hp. cbn [check_case]. unfold ps_save_check.
+  assert (Hwf : wf_infos obs0) by (apply peer_infos_wf; [apply ps_build_ok|exact Hnd]).
+  pose proof (reload_roundtrip self2 obs0 query2 Hwf Hs Hp) as Hre.
+  rewrite load_save, (group_loaded_loaded obs0 Hwf), same_infos_refl, Nat.eqb_refl, opaddrs_eqb_refl.
+  fold (ps_save_model_obs0 self1 pre query). fold obs0. unfold ps_save_model_obs0 in obs0.
+  assert (E0 : pinfos_eqb (ps_build pre) obs0 obs0 = true) by apply pinfos_eqb_refl. rewrite E0. cbn [andb].
+  rewrite Hre, same_infos_refl. cbn [andb app].
+  unfold reload in Hre. destruct (import_file true self2 (save_lines obs0) ps_empty) as [|ps] eqn:E; [discriminate|].
+  injection Hre as Hre. cbn [opinfos_eqb]. rewrite <- Hre. now rewrite pinfos_eqb_refl. Qed.
+
+(* Prop-level reading of code 13: the same peers in the same order, each with the same set of addresses *)
+Definition same_peers_same_addrs (a b : list pinfo) : Prop :=
+  Forall2 (fun x y => fst x = fst y /\ Permutation (snd x) (snd y)) a b.
+
+Lemma obs_pinfo_eqb_sound x y : obs_pinfo_eqb x y = true -> fst x = fst y /\ Permutation (snd x) (snd y).
+Proof. unfold obs_pinfo_eqb. rewrite andb_true_iff. intros [H1 H2]. apply N.eqb_eq in H1. split; auto.
+  apply (list_eqb_eq tr_eqb2 tr_eqb2_eq) in H2.
+  apply Permutation_trans with (sort_by tr_key (snd x)); [symmetry; apply sort_by_perm|]. rewrite H2. apply sort_by_perm. Qed.
+Lemma same_infos_sound a b : same_infos a b = true -> exists l, a = Some l /\ same_peers_same_addrs l b.
+Proof. destruct a as [l|]; [|discriminate]. cbn [same_infos]. intros H. exists l. split; auto.
+  revert b H. induction l as [|x r IH]; intros [|y s]; cbn [list_eqb]; try discriminate; [constructor|].
+  rewrite andb_true_iff. intros [H1 H2]. constructor; [now apply obs_pinfo_eqb_sound|now apply IH]. Qed.
+
+Lemma ps_save_monitor_sound_l id self1 self2 pre query query2 obs0 obs_lines obs_load obs2 :
+  (forall c, In c (check_case (id, PPsSave self1 self2 pre query query2 obs0 obs_lines obs_load obs2)) -> snd (fst c) <> 13) ->
+  exists g l2, group_loaded obs_load = Some g /\ obs2 = Some l2 /\ same_peers_same_addrs g obs0 /\ same_peers_same_addrs l2 obs0.
+Proof. cbn [check_case]. unfold ps_save_check. intros H.
+  destruct (same_infos (group_loaded obs_load) obs0 && same_infos obs2 obs0) eqn:E.
+  - apply andb_true_iff in E. destruct E as [E1 E2]. apply same_infos_sound in E1, E2.
+    destruct E1 as [g [G1 G2]]. destruct E2 as [l2 [L1 L2]]. exists g, l2. auto.
+  - exfalso. apply (H (id, 13, 0)); [|reflexivity]. apply in_or_app. right. now left. Qed.
